@@ -257,6 +257,8 @@ func filterTableCases() []FilterCase {
 		`@[0, 1] > 1`, `@[0 to 1] > 1`, `@[1, 0] > 1`, `@.a[*] > 1`, `@[*] > 1 && @[*] < 1`, `(@[0, 1] > 1) is unknown`, `@[0] > @[1]`, `@[0, 5] > 1`, `@[0, 1] == @[1, 0]`, `@[*] > 1`, `@.a[0 to last] > 1`,
 		`exists(@[0, 1] ? (@ > 1).type())`, `exists(@[0, 1].abs() ? (@ > 1))`, `exists(-@[0, 1])`, `exists((@[0, 1] ? (@ > 1)) + 1)`, `exists(@.*[0] ? (@ > 1))`, `exists(@.a.b)`, `exists(@[0 to 1] ? (exists(@ ? (@ > 1))))`,
 		`@.keyvalue().value > 1`, `@.keyvalue().key == "a"`, `exists(@.keyvalue() ? (@.key == "b" && @.value > 1))`, `@[0, 1] starts with "a"`, `@[*] like_regex "^a"`, `exists(@[0, 1] ? (@ starts with "a"))`,
+		// the right operand of starts with is never unwrapped: $p is an array, $q a string
+		`@[*] starts with $p`, `@[0] starts with $p`, `@[*] starts with $q`, `(@[*] starts with $p) is unknown`, `exists(@[*] ? (@ starts with $p))`, `@[*] starts with $p || @[*] starts with $q`, `@[1] starts with $q`,
 	}
 	docs := []string{
 		`[[5,0],[0,5],[5,5],[0,0],[5],[]]`,
@@ -276,7 +278,7 @@ func filterTableCases() []FilterCase {
 		for _, d := range docs {
 			for _, strict := range []bool{false, true} {
 				for _, pfx := range []*Node{{K: KAnyArr}, {K: KIdx, Subs: []Sub{{From: &Node{K: KInt, I: 0}, To: &Node{K: KLast}}}}} {
-					out = append(out, FilterCase{Strict: strict, Prefix: pfx, Cond: cond, Doc: d})
+					out = append(out, FilterCase{Strict: strict, Prefix: pfx, Cond: cond, Doc: d, Opts: Opts{HasVars: true, Vars: map[string]string{"p": `["a"]`, "q": `"a"`}}})
 				}
 			}
 		}
